@@ -199,6 +199,12 @@ func (x *Exec) unknownCall(name string, results *types.Tuple, setRes func(Val), 
 	if !pure {
 		pure = x.V.isPureName(name)
 	}
+	if !pure && x.root().initDepth > 0 {
+		// inside a package initialiser: library registration calls (protobuf, drivers)
+		// are assumed not to change the package's own variables
+		pure = true
+		x.V.noteAssumed("calls made by package initialisers (" + name + ") do not modify the package's variables")
+	}
 	if !pure {
 		x.havocMatching([]string{"*"})
 		x.noteUnmodelled(name + " (havoc)")
